@@ -13,7 +13,7 @@ LEVEL = "exploration"
 RULE = ("Hypothesis-generated Sim descriptions: a testbench with exactly one scalar port (plus invalid ones: no port, two ports, one "
         "bus port, one scalar plus a bundle port) and 0-8 attributes over Op, Dc, Ac, Tran, Noise (signal / pair / name outputs, "
         "instance / name sources), SweepAnalysis and MonteCarlo nested to depth 3, CustomAnalysis, every sweep kind, Param, Include, "
-        "Lib, Meas (analysis object or type name), Literal, Save in each documented target form (mode, signal, list of signals, name, "
+        "Lib, Meas (analysis object or any name; expressions and literal texts incl. padded and arbitrary short text), Literal, Save in each documented target form (mode, signal, list of signals, name, "
         "list of names), Options with bool / number / string / literal values; numeric fields in every Scalar form (int, float, "
         "Decimal, numeric string, Prefixed with any prefix, incl. 1..40-digit mantissas and long decimals placed 1e-29..1e-45 relative beside the midpoint of two adjacent doubles). Each Sim is built by constructor list, by @sim class body and through the "
         "add-methods (1 in 4 of those exported once before their last attributes are added), and exported alone and in lists of 1-3 Sims sharing or not sharing testbenches. Oracle: reference encoder - top "
@@ -560,9 +560,9 @@ def strategies():
         st.fixed_dictionaries({"t": st.just("param"), "name": st.sampled_from(["px", "py", "pz"]), "val": scalar}),
         st.fixed_dictionaries({"t": st.just("include"), "path": paths}),
         st.fixed_dictionaries({"t": st.just("lib"), "path": paths, "section": st.sampled_from(["fast", "tt", ""])}),
-        st.fixed_dictionaries({"t": st.just("literal"), "text": st.sampled_from([".temp 25", "* hello", "simulator lang=spice"])}),
-        st.fixed_dictionaries({"t": st.just("meas"), "name": st.sampled_from(["m1", "delay", "gain"]), "expr": st.sampled_from(["trig_targ", "max(v(a))", ""]),
-                               "analysis": st.one_of(st.sampled_from(["tran", "ac", "dc"]), st.fixed_dictionaries({"obj": st.fixed_dictionaries({"t": st.just("tran"), "name": st.just("mt"), "tstop": scalar, "tstep": st.none()})}))}),
+        st.fixed_dictionaries({"t": st.just("literal"), "text": st.one_of(st.sampled_from([".temp 25", "* hello", "simulator lang=spice", "  .ic v(a)=1 ", "\t* tab", "two\nlines\n", ""]), st.text(max_size=8))}),
+        st.fixed_dictionaries({"t": st.just("meas"), "name": st.sampled_from(["m1", "delay", "gain"]), "expr": st.one_of(st.sampled_from(["trig_targ", "max(v(a))", "", " max(v(a)) ", "when v(a)=0.5 ", "\tx", "A*B"]), st.text(max_size=8)),
+                               "analysis": st.one_of(st.sampled_from(["tran", "ac", "dc", "TRAN", "Ac", "my_an", " tran", ""]), st.fixed_dictionaries({"obj": st.fixed_dictionaries({"t": st.just("tran"), "name": st.just("mt"), "tstop": scalar, "tstep": st.none()})}))}),
         st.fixed_dictionaries({"t": st.just("save"), "targ": st.one_of(
             st.sampled_from(["ALL", "NONE"]).map(lambda m: {"mode": m}), sig.map(lambda s: {"sig": s}),
             st.lists(sig, min_size=1, max_size=3).map(lambda l: {"sigs": l}), st.sampled_from(["a", "xtop.b", "i(v1)"]).map(lambda s: {"name": s}),
